@@ -10,10 +10,11 @@ from harness.tr import mk_array
 
 EVIDENCE = {
     "functions": ["LineTensor.perpendicular (both branches)", "SubspaceTensor.parallel/project", "LineTensor.mirror", "PlaneTensor.perpendicular/parallel/project", "LineTensor.base_point/direction/basis_matrix",
-                  "SubspaceTensor.general_point", "operators.is_perpendicular/is_coplanar/is_collinear/is_concurrent/is_cocircular", "SubspaceTensor.is_parallel"],
+                  "SubspaceTensor.general_point", "operators.is_perpendicular/is_coplanar/is_collinear/is_concurrent/is_cocircular", "SubspaceTensor.is_parallel", "operators.angle_bisectors"],
     "bounds": "2-D lines and points with free real coordinates (line not at infinity where the construction needs a finite line; the point on / off the line are separate paths); "
-              "3-D planes with free reals; single objects",
-    "outside": "3-D lines (SVD-based basis_matrix; nested complex radicals for mirror), angle_bisectors (complex square roots), collections (C04), rounding",
+              "3-D planes with free reals; single objects; angle_bisectors: lattice line x line with one free real slope parameter through a lattice vertex (4 configurations; complex square roots as constrained pairs), "
+              "in 3-space one configuration (thorough); is_coplanar: four free points of 3-space",
+    "outside": "3-D lines (SVD-based basis_matrix; nested complex radicals for mirror; built, tier 'attempt'), angle_bisectors of two fully free lines and further 3-D configurations (attempt, undecided in 300 s), collections (C04), rounding",
     "assumptions": ["ProjectiveTensor.__eq__/is_multiple: lemma proved in C20", "np.linalg.qr: Gram-Schmidt contract stub for PlaneTensor.basis_matrix"],
 }
 
